@@ -56,7 +56,7 @@ CASE_TIMEOUT = 120
 
 def gen_cases(tier, seed):
     rnd = random.Random(f"C17:{seed}")
-    mult = 10 if tier == "quick" else 80
+    mult = 10 if tier == "quick" else 300
     cases = []
     for kind, n in (("layout", 400), ("affine", 1200), ("gifti", 50), ("vtk", 250),
                     ("links", 40)):
